@@ -733,3 +733,78 @@ M("c19-short-path-keeps-a-slash", "C19", "C19.FRAME", ("src/deep/processor/frame
                                                        "            start = len(match) - 1 if match.endswith('/') else len(match)\n            return filename[start:], is_app_frame\n"))
 M("c06-live-collection-through-islice", "C06", "C06.TOTAL", (VPROC, "from typing import ", "from itertools import islice\nfrom typing import "),
   (VPROC, "    for val_ in tuple(value):\n", "    for val_ in islice(value, 1000):\n"))
+
+
+# ------------------------------------------------------------------ cases taken from committed patches (round 8 / campaign 7)
+def _edits_of(patch):
+    """(file, old, new) per hunk of a unified diff under /verif/seeded (source files only)."""
+    import os
+    path = os.path.join(os.path.dirname(os.path.dirname(os.path.dirname(os.path.abspath(__file__)))), "seeded", patch)
+    edits, rel, old, new = [], None, [], []
+
+    def flush():
+        if rel and rel.startswith("src/") and (old or new) and old != new:
+            edits.append((rel, "".join(old), "".join(new)))
+    for line in open(path).read().splitlines(keepends=True):
+        if line.startswith("+++ "):
+            flush()
+            rel, old, new = line[4:].strip()[2:] if line[4:].startswith("b/") else None, [], []
+        elif line.startswith("@@"):
+            flush()
+            old, new = [], []
+        elif line.startswith("--- ") or line.startswith("diff ") or line.startswith("index ") or line.startswith("new file") or line.startswith("\\"):
+            if line.startswith("diff "):
+                flush()
+                rel, old, new = None, [], []
+        elif rel is not None:
+            if line.startswith("-"):
+                old.append(line[1:])
+            elif line.startswith("+"):
+                new.append(line[1:])
+            else:
+                old.append(line[1:] if line.startswith(" ") else line)
+                new.append(line[1:] if line.startswith(" ") else line)
+    flush()
+    return edits
+
+
+def MP(id_, prop, rule, patch):
+    CASES.append({"id": id_, "prop": prop, "rule": rule, "edits": _edits_of(patch)})
+
+
+def RP(id_, prop, patch):
+    CASES.append({"id": id_, "prop": prop, "expect": "silent", "edits": _edits_of(patch)})
+
+
+MP("c01-otel-attach-never-detached", "C01", "C01.R3", "C01-g1/patch.diff")
+MP("c01-defaults-written-into-callers-args", "C01", "C01.R3", "C01-g2/patch.diff")
+MP("c01-thread-hook-saved-after-install", "C01", "C01.HOOKS", "C01-g3/patch.diff")
+MP("c05-one-shared-limits-object", "C05", "C05.WIRE", "C05-g2/patch.diff")
+MP("c06-pushed-before-capture", "C06", "C06.COMPLETE", "C06-g3/patch.diff")
+MP("c07-collected-frames-cached-on-trigger", "C07", "C07.TABLE", "C07-g2/patch.diff")
+MP("c08-id-minimal-bytes", "C08", "C08.SCHEMA", "C08-g1/patch.diff")
+MP("c08-converted-tracepoint-cached", "C08", "C08.SCHEMA", "C08-g2/patch.diff")
+MP("c11-popleft", "C11", "C11.DEFER", "C11-g1/patch.diff")
+MP("c11-merge-into-property-copy", "C11", "C11.KEEP", "C11-g2/patch.diff")
+MP("c11-read-before-lock", "C11", "C11.INSTALL", "C11-g3/patch.diff")
+MP("c16-callers-dict-kept-as-config", "C16", "C16.BUILD", "C16-g2/patch.diff")
+MP("c16-context-closed-per-action", "C16", "C16.PIPE", "C16-g3/patch.diff")
+MP("c18-sorted-result-dropped", "C18", "C18.CHAIN", "C18-g1/patch.diff")
+MP("c18-mapping-adopted", "C18", "C18.CLEAN", "C18-g2/patch.diff")
+MP("c19-mutable-default-config", "C19", "C19.CHAIN", "C19-g2/patch.diff")
+MP("c20-sorted-result-dropped", "C20", "C20.LOAD", "C20-g1/patch.diff")
+MP("c20-logger-called-before-attach", "C20", "C20.ISO", "C20-g3/patch.diff")
+RP("c20-creating-helper-answers-none", "C20", "evolutions4/E15_refactor_1.diff")
+RP("c18-providers-folded-with-reduce", "C18", "evolutions4/E15_refactor_2.diff")
+RP("c20-decorations-merged-with-update", "C20", "evolutions4/E15_refactor_4.diff")
+RP("c04-limits-as-one-expression", "C04", "evolutions4/E16_refactor_1.diff")
+RP("c10-limits-as-one-expression", "C10", "evolutions4/E16_refactor_1.diff")
+RP("c10-condition-in-a-helper", "C10", "evolutions4/E16_refactor_3.diff")
+RP("c17-condition-in-a-helper", "C17", "evolutions4/E16_refactor_3.diff")
+RP("c04-statistics-members-renamed", "C04", "evolutions4/E16_refactor_5.diff")
+RP("c14-timer-loop-while-true", "C14", "evolutions4/E17_refactor_2.diff")
+RP("c14-hook-pair-in-one-field", "C14", "evolutions4/E17_refactor_5.diff")
+RP("c18-sequence-cleaned-by-comprehension", "C18", "evolutions4/E18_refactor_2.diff")
+RP("c18-oldest-evicted-by-hand", "C18", "evolutions4/E18_refactor_3.diff")
+RP("c18-merge-as-dict-display", "C18", "evolutions4/E18_refactor_4.diff")
+RP("c18-create-with-named-steps", "C18", "evolutions4/E18_refactor_6.diff")
